@@ -287,6 +287,19 @@ class Walker:
         """``xs.append(v)`` / ``xs.insert(0, v)`` / ``xs.extend([..])`` on a local that still holds the
         list display it was created with: the display is updated (the call effect is recorded too)"""
         f = call.func
+        if isinstance(f, ast.Attribute) and isinstance(f.value, ast.Name) and f.attr == 'reverse' and not call.args and not call.keywords and not st.loopdepth:
+            # xs = list(E); xs.reverse()   is   xs = list(reversed(E))
+            cur = st.env.get(f.value.id)
+            if isinstance(cur, ast.List):
+                st.env[f.value.id] = ast.List(elts=list(reversed(cur.elts)), ctx=ast.Load())
+            elif isinstance(cur, ast.Call) and isinstance(cur.func, ast.Name) and cur.func.id == 'list' and len(cur.args) == 1 and not cur.keywords:
+                inner = cur.args[0]
+                if isinstance(inner, ast.Call) and isinstance(inner.func, ast.Name) and inner.func.id == 'reversed' and len(inner.args) == 1:
+                    new = inner.args[0]
+                else:
+                    new = ast.Call(func=ast.Name(id='reversed', ctx=ast.Load()), args=[inner], keywords=[])
+                st.env[f.value.id] = ast.Call(func=ast.Name(id='list', ctx=ast.Load()), args=[new], keywords=[])
+            return
         if not (isinstance(f, ast.Attribute) and isinstance(f.value, ast.Name) and f.attr in ('append', 'insert', 'extend')):
             return
         name = f.value.id
@@ -324,7 +337,7 @@ class Walker:
             return [(st, None)]
         saved_env = st.env.get(s.value.func.value.id) if isinstance(s.value, ast.Call) and isinstance(s.value.func, ast.Attribute) and isinstance(s.value.func.value, ast.Name) else None
         self.ev(s.value, st, d)
-        if isinstance(s.value, ast.Call) and isinstance(saved_env, ast.List):
+        if isinstance(s.value, ast.Call) and (isinstance(saved_env, ast.List) or (isinstance(saved_env, ast.Call) and s.value.func.attr == 'reverse')):
             st.env[s.value.func.value.id] = saved_env
             self._local_list_mutation(s.value, st, d)
         return [(st, None)]
